@@ -26,6 +26,9 @@ func TestMain(m *testing.M) { ev.Main(m, "C05", "exploration") }
 
 type Case struct {
 	File gen.File `json:"file"`
+	// large files are rebuilt on replay instead of being stored
+	LargeFormat string `json:"large_format,omitempty"`
+	LargeAt     int    `json:"large_at,omitempty"`
 }
 
 var unconfirmed, confirmed int64
@@ -134,7 +137,7 @@ func (s *sweeper) runLevel(f gen.File, full bool) {
 		return
 	}
 	s.bad[k] = true
-	ev.Violation("dims", k, w, Case{f})
+	ev.Violation("dims", k, w, Case{File: f})
 }
 
 // field sweeps through direct builder calls
@@ -300,15 +303,38 @@ func TestC05(t *testing.T) {
 		if err := ev.ReplayCase(&c); err != nil {
 			t.Fatal(err)
 		}
+		if c.LargeFormat != "" {
+			c.File = gen.LargeHeader(c.LargeFormat, c.LargeAt)
+		}
 		if k, w := check(c.File); k != "" {
+			c.File.Data = nil
 			ev.Fail(t, "dims", k, w, c)
 		}
 		fmt.Println("REPLAY case passed")
 		return
 	}
-	ev.Rule("rapid grammar-built files: PNG (every legal colour type/bit depth, interlace, 31-bit dimensions boundary-biased, 0-6 ancillary chunks with lengths chosen so later chunk headers straddle 4096*k, optional iCCP), JPEG (SOF0/SOF2, 1/3/4 components with legal sampling factors, 16-bit dimensions, APPn/COM/DQT/DHT/DRI segments of 2..65535 bytes before and after SOF, optional multi-chunk ICC), WebP (VP8 with scale bits, VP8L, VP8X with any flags and 24-bit canvas); field sweeps over every dimension field (boundaries, walking bits, 1000 random in quick; every 14/16/24-bit value in thorough). Oracle: the generator's fields, cross-checked by image/png, image/jpeg, x/image/webp DecodeConfig when they accept the file. non-trivial = distinct file with >= 1 structure before the header of interest, width != height, or a dimension >= 2048")
+	ev.Rule("rapid grammar-built files: PNG (every legal colour type/bit depth, interlace, 31-bit dimensions boundary-biased, 0-6 ancillary chunks with lengths chosen so later chunk headers straddle 4096*k, optional iCCP), JPEG (SOF0/SOF2, 1/3/4 components with legal sampling factors, 16-bit dimensions, APPn/COM/DQT/DHT/DRI segments of 2..65535 bytes before and after SOF, optional multi-chunk ICC), WebP (VP8 with scale bits, VP8L, VP8X with any flags and 24-bit canvas); files with 1-12 MiB (100 MiB thorough) of ancillary data before the header structures; field sweeps over every dimension field (boundaries, walking bits, 1000 random in quick; every 14/16/24-bit value in thorough). Oracle: the generator's fields, cross-checked by image/png, image/jpeg, x/image/webp DecodeConfig when they accept the file. non-trivial = distinct file with >= 1 structure before the header of interest, width != height, or a dimension >= 2048")
 	ev.Assume("harness builders; the standard decoders refuse some legal files (12-bit JPEG, PNG dimension products overflowing, unsupported sampling) - those are counted as decoder_unconfirmed and checked against the written fields only")
 	sweeps()
+	// megabytes of ancillary data in front of the header structures (the formats put no limit on it)
+	{
+		ats := []int{1 << 20, 8<<20 + 300, 12 << 20}
+		if ev.Thorough() {
+			ats = append(ats, 16<<20+5, 32<<20+1, 64<<20, 100<<20)
+		}
+		for _, at := range ats {
+			for _, format := range []string{"PNG", "JPEG", "WebP"} {
+				f := gen.LargeHeader(format, at)
+				ev.Eval(1)
+				ev.NT(ev.Hash("large", format, at))
+				if k, w := check(f); k != "" {
+					f.Data = nil
+					ev.Violation("dims", k, w, Case{File: f, LargeFormat: format, LargeAt: at})
+				}
+			}
+		}
+		ev.Class("large-ancillary-data", int64(3*len(ats)))
+	}
 	ev.RapidChecks(ev.Pick(3000, 150000))
 	ev.RapidSeed(5)
 	rapid.Check(t, func(rt *rapid.T) {
@@ -322,7 +348,7 @@ func TestC05(t *testing.T) {
 			ev.Sample(map[string]any{"desc": f.Desc, "notes": f.Notes, "bytes": len(f.Data), "head_hex": fmt.Sprintf("%x", f.Data[:min(48, len(f.Data))])})
 		}
 		if k, w := check(f); k != "" {
-			ev.Fail(rt, "dims", k, w, Case{f})
+			ev.Fail(rt, "dims", k, w, Case{File: f})
 		}
 	})
 	ev.Set("decoder_confirmed", confirmed)
